@@ -18,4 +18,13 @@ var props = map[string]propCfg{
 		Assume:    append([]string{"transient empty reads are (0,nil), (0,io.EOF) and, for the raw reader only, (0,timeout error); (n>0,err!=nil) results are not produced", "single-threaded: concurrent writers are not simulated"}, commonAssume...),
 		StateRule: "none (stateless codec); distinct digests are the reach measure",
 	},
+	"C26": {
+		Flavor: "worker-plain", Level: "fault_enumeration",
+		QuickRuns: 1 << 30, QuickDL: 40 * time.Second, ThorDL: 10 * time.Minute, ThorSeeds: 5,
+		Rule: "a run = 1..8 messages, each of a tape-chosen registered type (all entries of the request/response/event constructor tables plus ErrorResponse) with fields filled by reflection from the tape, written back-to-back by WriteProtocolMessage, then read through bufio+ReadProtocolMessage (a) fault-free, (b) with every read bounded to 1/2/3/7 bytes, (c) once per split offset (two reads) and once per cut offset - complete per stream up to the stated limit, (d) under 1..3 tape-drawn short-read / empty-read-burst / cut schedules. evaluations = runs; sim_steps = reader executions; distinct = distinct event-log digests (message bytes + schedule outcomes); all runs are non-trivial (faults are injected in every run).",
+		Real:      []string{"dap.WriteProtocolMessage", "dap.ReadProtocolMessage", "dap.ReadBaseMessage", "dap.DecodeProtocolMessage", "schematypes constructor tables", "bufio.Reader", "encoding/json"},
+		Stub:      []string{"byte stream under bufio (sim.Stream)"},
+		Assume:    append([]string{"equality is json.Marshal(decoded)==json.Marshal(original) plus identical dynamic type; interface{} fields hold JSON-normalised values", "(0,nil) bursts stay below bufio's 100-empty-read limit; (0,io.EOF) is only injected as a permanent cut"}, commonAssume...),
+		StateRule: "none (stateless codec)",
+	},
 }
